@@ -307,6 +307,8 @@ def judge_J(rec):
     w = ans.split()
     nr, nc = int(w[1]), int(w[2])
     Jm = np.array([h2f(x) for x in w[3:]]).reshape(nr, nc)
+    undefined = ~np.isfinite(Jm)
+    Jm = np.where(undefined, 0.0, Jm)
     for label, (val, pattern, eqs, y0) in rec["real"].items():
         if isinstance(val, Exception):
             out.append((label, f"J raised {type(val).__name__}: {str(val)[:120]}", "raise")); continue
@@ -314,6 +316,10 @@ def judge_J(rec):
         if val.shape != (nr, nc):
             out.append((label, f"J has shape {val.shape}, expected ({nr}, {nc})", "shape")); continue
         got = val[rows, :]
+        # entries where the reference derivative is not finite (inf * 0 after a division by a zero parameter) have no
+        # mathematical value at this point: they are not compared
+        if undefined.any():
+            got = np.where(undefined, 0.0, got)
         if not close(got, Jm):
             d = np.abs(got - Jm)
             r, c = np.unravel_index(int(np.argmax(d)), d.shape)
